@@ -582,3 +582,89 @@ func TestVxC17CloseTwice(t *testing.T) {
 		Run: func(ci interface{}, k *vstats.Case) error { return vxRunC17Twice(ci.(*vxC17TwiceCase), k) },
 	})
 }
+
+// ---------------------------------------------------------------------------------------------
+// C06, quiet time after the handshake: the handshake reads its answers under ConnectTimeout; whatever deadline
+// its last read left on the socket must not outlive it. A connection that is idle for longer than ConnectTimeout
+// (and Timeout) after the handshake still answers the next request - also with Timeout 0, also when the last
+// handshake frame had a body (AUTH_SUCCESS with a token, a compressed READY).
+
+type vxC06IdleCase struct {
+	Proto     int  `json:"proto"`
+	Auth      bool `json:"auth"`
+	TimeoutMs int  `json:"timeout_ms"` // 0: requests wait for ever
+	ConnectMs int  `json:"connect_ms"`
+	NumConns  int  `json:"num_conns"`
+}
+
+func vxRunC06Idle(c *vxC06IdleCase, k *vstats.Case) error {
+	if c.Proto < 1 || c.Proto > 5 || c.NumConns < 1 || c.NumConns > 2 || c.ConnectMs < 50 || c.ConnectMs > 500 || c.TimeoutMs < 0 || c.TimeoutMs > 2000 || (c.Auth && c.Proto < 2) {
+		return nil
+	}
+	cl := vnode.NewCluster(vxSpecs(1, 1))
+	node := cl.Nodes()[0]
+	if c.Auth {
+		node.AuthClass = "org.apache.cassandra.auth.PasswordAuthenticator"
+		node.RequireAuth = true
+	}
+	s, err := vxClusterConfig(cl, c.Proto, func(cfg *ClusterConfig) {
+		cfg.NumConns = c.NumConns
+		cfg.Timeout = time.Duration(c.TimeoutMs) * time.Millisecond
+		cfg.ConnectTimeout = time.Duration(c.ConnectMs) * time.Millisecond
+		if c.Auth {
+			cfg.Authenticator = PasswordAuthenticator{Username: "cassandra", Password: "cassandra"}
+		}
+	}).CreateSession()
+	if err != nil {
+		return fmt.Errorf("harness: CreateSession: %v", err)
+	}
+	defer s.Close()
+	for deadline := time.Now().Add(3 * time.Second); len(vxPoolConns(s)) < c.NumConns && time.Now().Before(deadline); {
+		time.Sleep(time.Millisecond) // the pool fills in the background
+	}
+	if len(vxPoolConns(s)) != c.NumConns {
+		return fmt.Errorf("harness: pool not filled")
+	}
+	conns0 := len(node.Conns())
+	idle := time.Duration(c.ConnectMs)*time.Millisecond*3/2 + 30*time.Millisecond
+	if t := time.Duration(c.TimeoutMs) * time.Millisecond * 3 / 2; t > idle && c.TimeoutMs <= 300 {
+		idle = t
+	}
+	time.Sleep(idle)
+	closed := 0
+	for _, sc := range node.Conns() {
+		if sc.Client.Closed() {
+			closed++
+		}
+	}
+	if closed > 0 || len(node.Conns()) != conns0 {
+		return fmt.Errorf("%v after the handshake (ConnectTimeout %d ms, Timeout %d ms, authentication %v) and without any request, %d of %d connections were closed by the driver and %d new ones opened",
+			idle, c.ConnectMs, c.TimeoutMs, c.Auth, closed, conns0, len(node.Conns())-conns0)
+	}
+	for i := 0; i < 2*c.NumConns; i++ {
+		if err := s.Query("LIST x").Exec(); err != nil {
+			return fmt.Errorf("%v after the handshake (ConnectTimeout %d ms, Timeout %d ms, authentication %v) query %d failed: %v", idle, c.ConnectMs, c.TimeoutMs, c.Auth, i, err)
+		}
+	}
+	k.NonTrivial()
+	k.Class(fmt.Sprintf("idle: auth=%v timeout0=%v", c.Auth, c.TimeoutMs == 0))
+	return nil
+}
+
+func TestVxC06IdleAfterHandshake(t *testing.T) {
+	vx.Check(t, vx.Prop{
+		ID: "C06", Part: "TestVxC06IdleAfterHandshake",
+		Rule: "protocol 1..5, password authentication or none, Timeout 0 / 60 / 300 / 2000 ms, ConnectTimeout 60..300 ms, 1..2 connections; after CreateSession nothing is sent for 1.5 ConnectTimeout (or 1.5 Timeout); oracle: the driver has closed no connection, and the following queries succeed; every case is non-trivial; distinct by the case",
+		Draw: func(t *rapid.T) interface{} {
+			c := &vxC06IdleCase{Proto: rapid.IntRange(1, 5).Draw(t, "proto"), Auth: rapid.Bool().Draw(t, "auth"),
+				TimeoutMs: rapid.SampledFrom([]int{0, 0, 60, 300, 2000}).Draw(t, "timeout"), ConnectMs: rapid.SampledFrom([]int{60, 150, 300}).Draw(t, "connect"),
+				NumConns: rapid.IntRange(1, 2).Draw(t, "numconns")}
+			if c.Proto < 2 {
+				c.Auth = false
+			}
+			return c
+		},
+		New: func() interface{} { return &vxC06IdleCase{} },
+		Run: func(ci interface{}, k *vstats.Case) error { return vxRunC06Idle(ci.(*vxC06IdleCase), k) },
+	})
+}
